@@ -30,11 +30,11 @@ FUNCTIONS = [
 ]
 MUST_REACH = ["fetch.encode_header", "fetch.encode_addrs", "fetch.FetchAtt.envelope", "fetch.FetchAtt.bodystructure", "fetch.FetchAtt.body_parameters", "fetch.FetchAtt.body_disposition", "fetch.FetchAtt.body", "client.Authenticated._fmt_list_response", "client.Authenticated.do_status"]
 BOUNDS = {
-    "quick": {"string sites": "symbolic str, |s| <= 3, every character an unconstrained code point < 256", "literal": "symbolic bytes <= 4, partial offsets 0..6", "responses": "messages from a menu of 12 header/structure variants x 8 fetch item sets; 8 mailbox names"},
-    "thorough": {"string sites": "|s| <= 4"},
+    "quick": {"string sites": "strings of <= 2 characters over 12 representatives of the character classes the quoting code distinguishes (DQUOTE, backslash, CR, LF, NUL, ASCII letter, 8-bit, SP, '(', '{', '%', DEL); str.encode() realises symbolic characters, so they are enumerated", "literal": "symbolic bytes <= 4, partial offsets 0..6", "responses": "messages from a menu of 12 header/structure variants x 8 fetch item sets; 8 mailbox names"},
+    "thorough": {"string sites": "<= 3 characters"},
 }
-SYMBOLIC = ["header / parameter / name characters (not enumerated: decided by z3 on character classes)", "literal payload length and partial offsets"]
-REALISED = ["menu selectors of part (c)"]
+SYMBOLIC = ["literal payload bytes, length and partial offsets"]
+REALISED = ["string selector of part (a) (str.encode at the head of every site realises a symbolic string)", "menu selectors of part (c)"]
 STUBS = ["a fake email.message object exposing the API fetch.py calls (part a)", "msg_as_bytes stub returning the symbolic payload (part b)", "FakeMH with real message texts parsed by the stdlib email package (part c)"]
 ASSUMPTIONS = ["header values with code points >= 256 leave encode_header through email.header.Header.encode (stdlib) - outside the claim", "octets inside literals are arbitrary (framing only)"]
 OUTSIDE = ["|s| > 4", "stdlib email rendering of message bodies", "RFC 2047 encoding of non-latin-1 values"]
@@ -140,13 +140,33 @@ class FakeEmail:
 SITES = ["encode_header", "envelope_subject", "envelope_addr_name", "envelope_addr_mailbox", "body_param_value", "body_param_name", "disposition_value", "disposition_type", "language", "transfer_encoding", "content_id", "content_type_subtype", "list_name", "lsub_name", "status_name", "list_status_name"]
 
 
-def string_site(s: str) -> bool:
+SALPHA = ['"', "\\", "\r", "\n", "\x00", "a", "\xe9", " ", "(", "{", "%", "\x7f"]
+
+
+def _nstrings(maxlen):
+    return sum(len(SALPHA) ** k for k in range(maxlen + 1))
+
+
+def _string_of(i):
+    ln = 0
+    base = 0
+    while i >= base + len(SALPHA) ** ln:
+        base += len(SALPHA) ** ln
+        ln += 1
+    k = i - base
+    out = []
+    for _ in range(ln):
+        out.append(SALPHA[k % len(SALPHA)])
+        k //= len(SALPHA)
+    return "".join(out)
+
+
+def string_site(i: int) -> bool:
     """
-    pre: len(s) <= core.PARAMS["maxlen"]
-    pre: all(ord(c) < 256 for c in s)
+    pre: core.PARAMS["lo"] <= i < core.PARAMS["hi"]
     post: _
     """
-    return held(_string_site, locals())
+    return held(_string_site, {"s": _string_of(core.pick(i, core.PARAMS["lo"], core.PARAMS["hi"]))})
 
 
 def _pick(out, marker_before, marker_after=None):
@@ -175,6 +195,11 @@ def _string_site(s):
         tok = env_[len(b"(NIL ") : len(env_) - len(b" NIL NIL NIL NIL NIL NIL NIL NIL)")]
     elif site in ("envelope_addr_name", "envelope_addr_mailbox"):
         import email.utils as EU
+
+        if site == "envelope_addr_mailbox" and "@" in s:
+            # assumption: email.utils.getaddresses never returns an addr-spec with more than one '@'
+            # (measured on '<a@b@c>', 'a@b@c', '@@': it returns ''); the one-'@' split is covered by the name site
+            return
 
         orig = EU.getaddresses
         F.email.utils.getaddresses = lambda fd, strict=False: [(s, "u@h")] if site == "envelope_addr_name" else [("", s)]
@@ -332,7 +357,7 @@ def _literal_framing(ln, b0, b1, b2, b3, part, o, n):
     check(out[:1] == b"{" and j > 0 and out[1:j].isdigit(), "C07/literal_framing/malformed_literal_header", out=repr(out))
     data = out[j + 3 :]
     check(int(out[1:j]) == len(data), "C07/literal_framing/literal_count_differs_from_data", out=repr(out))
-    full = text if text.endswith(b"\r\n") else text + b"\r\n"
+    full = text if (text.endswith(b"\r\n") or text == b"") else text + b"\r\n"
     exp = full[o : o + n] if part else full
     check(data == exp, "C07/literal_framing/literal_data_is_not_the_requested_slice", got=repr(data), expected=repr(exp))
 
@@ -476,8 +501,10 @@ def jobs(tier):
     q = tier == "quick"
     T = 300 if q else 1200
     js = []
+    total = _nstrings(2 if q else 3)
     for site in SITES:
-        js.append({"name": f"string_site[{site}]", "fn": "string_site", "params": {"site": site, "maxlen": 3 if q else 4}, "timeout": T, "per_path": 90})
+        for lo in range(0, total, 400):
+            js.append({"name": f"string_site[{site}][{lo}]", "fn": "string_site", "params": {"site": site, "lo": lo, "hi": min(total, lo + 400)}, "timeout": T, "per_path": 90})
     js.append({"name": "literal_framing", "fn": "literal_framing", "params": {}, "timeout": T, "per_path": 60})
     for st in range(len(STRUCTS)):
         for it in range(len(ITEMS)):
@@ -492,12 +519,12 @@ def jobs(tier):
 
 
 SAMPLES = [
-    {"fn": "string_site", "params": {"site": "encode_header", "maxlen": 3}, "args": {"s": "ab"}},
-    {"fn": "string_site", "params": {"site": "body_param_value", "maxlen": 3}, "args": {"s": "ab"}},
-    {"fn": "string_site", "params": {"site": "disposition_value", "maxlen": 3}, "args": {"s": "ab"}},
-    {"fn": "string_site", "params": {"site": "list_name", "maxlen": 3}, "args": {"s": "ab"}},
-    {"fn": "string_site", "params": {"site": "status_name", "maxlen": 3}, "args": {"s": "ab"}},
-    {"fn": "string_site", "params": {"site": "envelope_addr_name", "maxlen": 3}, "args": {"s": "ab"}},
+    {"fn": "string_site", "params": {"site": "encode_header", "lo": 0, "hi": 157}, "args": {"i": 77}},
+    {"fn": "string_site", "params": {"site": "body_param_value", "lo": 0, "hi": 157}, "args": {"i": 77}},
+    {"fn": "string_site", "params": {"site": "disposition_value", "lo": 0, "hi": 157}, "args": {"i": 77}},
+    {"fn": "string_site", "params": {"site": "list_name", "lo": 0, "hi": 157}, "args": {"i": 77}},
+    {"fn": "string_site", "params": {"site": "status_name", "lo": 0, "hi": 157}, "args": {"i": 77}},
+    {"fn": "string_site", "params": {"site": "envelope_addr_name", "lo": 0, "hi": 157}, "args": {"i": 77}},
     {"fn": "literal_framing", "params": {}, "args": {"ln": 3, "b0": 65, "b1": 13, "b2": 10, "b3": 0, "part": True, "o": 1, "n": 3}},
     {"fn": "fetch_response", "params": {}, "args": {"sub": 0, "frm": 0, "st": 2, "it": 6}},
     {"fn": "name_response", "params": {}, "args": {"nm": 0, "kind": 3}},
